@@ -441,15 +441,54 @@ impl<'a, Input: InputIndexer> MatchAttempter<'a, Input> {
         dir: Dir,
     ) -> bool {
         debug_assert!(self.states.is_empty(), "Should be no states");
+        #[cfg(all(regress_verif, feature = "std"))]
+        crate::verif::event(
+            crate::verif::ENGINE_PIKE,
+            crate::verif::EV_ENTER,
+            init_state.ip,
+            input.pos_to_offset(init_state.pos),
+            0,
+            Dir::FORWARD,
+        );
         self.states.push(init_state.clone());
         while !self.states.is_empty() {
+            #[cfg(all(regress_verif, feature = "std"))]
+            {
+                let top = self.states.last().unwrap();
+                crate::verif::event(
+                    crate::verif::ENGINE_PIKE,
+                    crate::verif::EV_INSN,
+                    top.ip,
+                    input.pos_to_offset(top.pos),
+                    self.states.len(),
+                    Dir::FORWARD,
+                );
+            }
             let s = self.states.last_mut().unwrap();
             match try_match_state(self.re, &input, s, dir) {
                 StateMatch::Fail => {
                     self.states.pop();
+                    #[cfg(all(regress_verif, feature = "std"))]
+                    crate::verif::event(
+                        crate::verif::ENGINE_PIKE,
+                        crate::verif::EV_BACKTRACK,
+                        0,
+                        0,
+                        self.states.len(),
+                        Dir::FORWARD,
+                    );
                 }
                 StateMatch::Continue => {}
                 StateMatch::Complete => {
+                    #[cfg(all(regress_verif, feature = "std"))]
+                    crate::verif::event(
+                        crate::verif::ENGINE_PIKE,
+                        crate::verif::EV_LEAVE,
+                        1,
+                        input.pos_to_offset(s.pos),
+                        0,
+                        Dir::FORWARD,
+                    );
                     // Give the successful state to the caller.
                     core::mem::swap(init_state, s);
                     self.states.clear();
@@ -458,6 +497,15 @@ impl<'a, Input: InputIndexer> MatchAttempter<'a, Input> {
                 StateMatch::Split(newstate) => self.states.push(newstate),
             }
         }
+        #[cfg(all(regress_verif, feature = "std"))]
+        crate::verif::event(
+            crate::verif::ENGINE_PIKE,
+            crate::verif::EV_LEAVE,
+            0,
+            0,
+            0,
+            Dir::FORWARD,
+        );
         false
     }
 }
